@@ -33,15 +33,6 @@ let parse_event (toks : string list) : event =
   | ["P"; tau; rot] -> EProvider (z_of_string tau, bool_of rot)
   | _ -> failwith ("event " ^ String.concat " " toks)
 
-(* split a token list on "|" *)
-let split_bar (toks : string list) : string list list =
-  let rec go acc cur = function
-    | [] -> List.rev (List.rev cur :: acc)
-    | "|" :: r -> go (List.rev cur :: acc) [] r
-    | x :: r -> go acc (x :: cur) r in
-  go [] [] toks
-
-
 let () = register "mach" (fun rest ->
     match split_bar rest with
      | [redis; sso; fwd; inact; maxlife; acr; pacr; idtok; autologin; upd; memlock; strict; tau] :: evs ->
